@@ -82,12 +82,17 @@ def forbidden_scan():
     return bad
 
 
+TRANSLATOR_OUT = ""
+
+
 def coq_build(pid, tier="quick"):
     """returns (base_ok, [(file, ok, assumptions, output)])"""
     with Lock("meddly-verif-coq.lock"):
         # regenerate the translated leaf definitions from /repo
         tr = subprocess.run([sys.executable, os.path.join(VERIF, "tools", "cxx2v.py")],
                             capture_output=True, text=True)
+        global TRANSLATOR_OUT
+        TRANSLATOR_OUT = (tr.stdout + tr.stderr)[-2000:]
         if tr.returncode != 0:
             log("translator:", tr.stdout[-2000:], tr.stderr[-2000:])
         if not os.path.exists(os.path.join(COQ, "Makefile")):
@@ -387,6 +392,11 @@ def main():
                 failed_thms.append((name, out[-1500:], unknown))
         if bad:
             failed_thms.append(("forbidden-command-scan", "\n".join(bad), []))
+        if spec.get("uses_gen") and not tr_ok:
+            # the generated definitions could not be regenerated from the current source: the
+            # theorems about them say nothing about the code as it is now
+            failed_thms.append(("translator tools/cxx2v.py (Gen/*.v not regenerated from /repo)",
+                                TRANSLATOR_OUT, []))
 
         if replay:
             rp = json.load(open(replay))
